@@ -9,11 +9,18 @@ def run_hungarian(case):
     M = case["matrix"]                       # integers in units of 1/scale
     sc = case.get("scale", 1)
     real = [[x / sc for x in row] for row in M] if sc != 1 or case.get("floats") else [list(row) for row in M]
+    K = case.get("shift", 0)                 # huge integer entries: every matching of min(r, c) pairs shifts by the same constant
+    if K:
+        real = [[x + K for x in row] for row in M]
+    off = K * min(len(M), len(M[0]) if M else 0)
     events = []
     for minimize in (True, False):
         try:
             r = solve_hungarian(real, minimize=minimize)
-            o = float(r.objective) * sc
+            obj = r.objective
+            if K and isinstance(obj, float) and obj == int(obj):
+                obj = int(obj)
+            o = float(obj - off) * sc
             a = list(r.solution)
             if not all(type(x) is int for x in a):
                 events.append({"e": "raise", "what": "non_int_assignment"})
@@ -71,4 +78,10 @@ def gen(rng, maxn=7):
     else:
         vals = list(range(-20, 40))
     sc = rng.choice([1, 1, 4])
-    return {"matrix": [[rng.choice(vals) for _ in range(c)] for _ in range(r)], "scale": sc, "floats": rng.random() < 0.5}
+    case = {"matrix": [[rng.choice(vals) for _ in range(c)] for _ in range(r)], "scale": sc, "floats": rng.random() < 0.5}
+    k = rng.random()
+    if k < 0.1:
+        case.update(scale=1, floats=False, shift=rng.choice([2 ** 50, 2 ** 53, 10 ** 16, 2 ** 60 + 1, 10 ** 18]))   # beyond float exactness
+    elif k < 0.2:
+        case.update(scale=rng.choice([2 ** 32, 2 ** 40]), matrix=[[abs(x) % 8 for x in row] for row in case["matrix"]])  # tiny dyadic entries, exact in binary64
+    return case
